@@ -148,8 +148,8 @@ def tree0 : Disc.Tree := Disc.t0
 theorem c05_nm_present_refuted :
     Disc.nmPresent tree0 = true ∧
     Disc.nmPresent (Disc.notifyFull { ents := [], feats := [] } tree0).1 = false ∧
-    Disc.nmPresent (Disc.notifyPartial { ents := [⟨[0], 0, .removed⟩], feats := [] } tree0).1 = false ∧
-    Disc.nmPresent (Disc.reply { ents := [⟨[0], 0, .none⟩], feats := [] } tree0).1 = false := by
+    Disc.nmPresent (Disc.notifyPartial { ents := [Disc.mkEI [0] 0 .removed], feats := [] } tree0).1 = false ∧
+    Disc.nmPresent (Disc.reply { ents := [Disc.mkEI [0] 0 .none], feats := [] } tree0).1 = false := by
   decide
 
 /-- C05 (partial, code as written): the invariant survives every reply and every partial notification that does
@@ -169,8 +169,8 @@ theorem c05_nm_present_partial (m : Disc.Msg) (t : Disc.Tree) (h : Disc.nmPresen
 
 /-- non-vacuity: a notification that adds entity `[1]` and removes entity `[2]` meets the hypothesis and changes
     the tree -/
-example : (∀ ei ∈ ([⟨[1], 1, .added⟩, ⟨[2], 1, .removed⟩] : List Disc.EI), ei.addr ≠ [0]) ∧
-    (Disc.notifyPartial { ents := [⟨[1], 1, .added⟩, ⟨[2], 1, .removed⟩], feats := [] } tree0).1 ≠ tree0 := by
+example : (∀ ei ∈ ([Disc.mkEI [1] 1 .added, Disc.mkEI [2] 1 .removed] : List Disc.EI), ei.addr ≠ [0]) ∧
+    (Disc.notifyPartial { ents := [Disc.mkEI [1] 1 .added, Disc.mkEI [2] 1 .removed], feats := [] } tree0).1 ≠ tree0 := by
   decide
 
 /-- C05, repaired member (removal loop skips entity `[0]`; a re-announcement of `[0]` without feature `0` does not
@@ -186,8 +186,8 @@ theorem c05_nm_present (m : Disc.Msg) (t : Disc.Tree) (h : Disc.nmPresent t = tr
     other entities -/
 example :
     Disc.nmPresent (Disc.notifyFullKeep { ents := [], feats := [] } tree0).1 = true ∧
-    Disc.nmPresent (Disc.notifyPartialKeep { ents := [⟨[0], 0, .removed⟩], feats := [] } tree0).1 = true ∧
-    Disc.nmPresent (Disc.replyKeep { ents := [⟨[0], 0, .none⟩], feats := [] } tree0).1 = true ∧
+    Disc.nmPresent (Disc.notifyPartialKeep { ents := [Disc.mkEI [0] 0 .removed], feats := [] } tree0).1 = true ∧
+    Disc.nmPresent (Disc.replyKeep { ents := [Disc.mkEI [0] 0 .none], feats := [] } tree0).1 = true ∧
     ((Disc.notifyFullKeep { ents := [], feats := [] } tree0).1.map (·.addr)) = [[0]] := by
   decide
 
